@@ -567,12 +567,19 @@ def work_convert(shard):
     part = Partial()
     level = logging.getLogger().level
     _ensure_stdin()
+    from pcbasic.compat import stdio
+    saved_stdout = stdio.stdout
+    sink = open(os.devnull, 'w')
+    # the converter's Session echoes BASIC error messages to stdout: keep them out of the report
+    stdio.stdout = sink
     try:
         with H.Scratch() as root:
             bench = Bench(root)
             for group, name, kind, payload in shard:
                 convert_program(part, bench, group, name, kind, payload)
     finally:
+        stdio.stdout = saved_stdout
+        sink.close()
         logging.getLogger().setLevel(level)
     return part
 
